@@ -882,7 +882,7 @@ class C15(Spec):
     def extra_stages(self, rep, tier, rng, broken):
         """translator tie: the constants tools/trules/bloom.py generated == the values in the compiled headers."""
         import re
-        exe = os.path.join(core.BUILD, "bloom_h")
+        exe = core.harness_exe("bloom_h")
         gen_file = os.path.join(core.LEAN, "DSGen", "Bloom.lean")
         if not (os.path.exists(exe) and os.path.exists(gen_file)):
             return
